@@ -24,6 +24,7 @@ import (
 	"github.com/olric-data/olric/internal/discovery"
 	"github.com/olric-data/olric/internal/protocol"
 	"github.com/olric-data/olric/internal/stats"
+	"github.com/olric-data/olric/internal/verifhook"
 	"github.com/olric-data/olric/pkg/storage"
 )
 
@@ -293,6 +294,7 @@ func (dm *DMap) getOnCluster(hkey uint64, key string) (storage.Entry, error) {
 	//  the readRepair function may call putOnFragment function which needs a write
 	// lock. Please remember calling RUnlock before returning here.
 	versions := dm.lookupOnOwners(hkey, key)
+	verifhook.Point(dm.s.rt.This().Name, "get.local-replicas")
 	if dm.s.config.ReadQuorum >= config.MinimumReplicaCount {
 		v := dm.lookupOnReplicas(hkey, key)
 		versions = append(versions, v...)
